@@ -7,6 +7,19 @@ VERIF = os.path.dirname(os.path.dirname(os.path.abspath(__file__)))
 ALL = [f"C{i:02d}" for i in range(1, 20)]
 
 CHECKS = {
+    "C16": dict(
+        category="proof",
+        text="Proof: Lowering.v models the equation dispatcher and the input/output binding contract with an explicit error monad for ARBITRARY plugins and registries; "
+             "Coq proves that an equation without a registered plugin makes lowering fail whatever precedes/follows it, also inside bodies lowered by a plugin (every nesting depth), "
+             "that success implies every non-drop outvar is bound to a graph-connected value, and that unbound/disconnected outputs and unsupported results are errors. The optimizer "
+             "failure policy is translated from the source each run: default never re-raises and returns the completed prefix of the pipeline, which is equivalent to the input if every "
+             "pass is (C02); strict re-raises. Real-code crash-point sweeps: every pass index forced to raise under both policies, faults injected at every graph-surgery call inside passes, "
+             "12 unsupported constructs at top level / loop body / loop cond / scan body / cond branch / jit body / function body must raise.",
+        design_ref="DESIGN.md section 4 C16",
+        note="Trusted: Coq kernel (no axioms); Lowering.v tied to lowering_dispatch/output_binding by differential run with scripted stub plugins (400 jaxprs, error class + final bindings compared in Coq); "
+             "policy decision translated (GenPolicy) and compared with the running code on 60 (argument, env) pairs. Known findings: an exception raised INSIDE a pass (between graph-surgery calls) is swallowed by the "
+             "default policy and leaves an inconsistent model (6 (graph, pass) pairs listed).",
+        technique="Rocq proof over an executable dispatcher model with error monad + translated policy; fault injection at pass boundaries and inside passes on the real optimizer"),
     "C17": dict(
         category="proof",
         text="Full proof: the cast-elimination decision and the Range-bounds arithmetic are translated from the current "
